@@ -58,7 +58,9 @@ CHECKS = {
     "C05": dict(
         category="proof",
         text="Lean theorems over the client model for every server script: send_outcomes (refused before writing / delivered with exactly the "
-             "final reply / failed after a prefix and shut), ok_is_final_positive_reply, failed_send_shuts, error_carries_code_and_text. "
+             "final reply / failed after a prefix and shut), ok_is_final_positive_reply, failed_send_shuts, error_carries_code_and_text; on the sequential "
+             "transport model (Model/Transport.lean) send_raw_hands_over_at_most_once and successful_send_raw_hands_over_once: over all connections a "
+             "transport ever opened, one send_raw writes at most one DATA command (exactly one when it reports success) - no retry on another connection. "
              "Correspondence: single faults exhaustively (every dialogue position x 6 fault kinds x 1..3 recipients) and random multi-fault "
              "scripts against the real sync and tokio clients; the transcript acceptor recomputes each send's outcome from the server's own "
              "replies and compares it with what the client reported.",
@@ -96,14 +98,15 @@ CHECKS = {
         category="proof",
         text="Lean theorems on the client/pool model with a peer that goes silent: send_waits_at_most_twice (at any stall position a send "
              "waits on at most two reads, then fails and the connection is shut), sync_send_bounded (<= 2T with the sync client's socket "
-             "timeouts), waiting_read_is_error, broken_not_parked, tokio_unbounded_witness (the tokio client has no read deadline: known "
+             "timeouts), send_raw_waits_bounded (one send_raw over a pool with n parked connections: at most 2n+5 waiting reads over all connections), "
+             "after_send_raw_parked_are_open (the stalled connection is never among the parked ones), waiting_read_is_error, broken_not_parked, tokio_unbounded_witness (the tokio client has no read deadline: known "
              "finding). Partial: real time is the kernel's and tokio's. Correspondence: SmtpTransport and tokio AsyncSmtpTransport with "
              "timeout T against a multi-connection scripted peer that goes silent at every dialogue position (incl. mid-line, on the "
-             "NOOP probe of a pooled connection, in a blocked write of a 16 MiB message, and in the TCP connect itself); results, transcripts of every connection, elapsed time and is_timeout() are checked; "
+             "NOOP probe of a pooled connection, in a blocked write of a 16 MiB message, in the TCP connect itself with and without a local address, and around the TLS layer: no answer to the ClientHello, to STARTTLS, to AUTH, to commands inside TLS, implicit / required / opportunistic TLS, connections whose timeout is set afterwards with set_timeout); results, transcripts of every connection, elapsed time and is_timeout() are checked; "
              "the following send must succeed on a fresh connection.",
         design_ref="DESIGN.md 5 C20",
         note="Trusted: Lean kernel; axioms propext/Quot.sound/Classical.choice; socket timeouts and timers (A7, measured with a generous bound); model + "
-             "scripted peer harness. Known finding: tokio transport has no I/O deadline (hangs). Fixed: is_timeout() for WouldBlock.",
+             "scripted peer harness. Known finding: tokio transport has no I/O deadline (hangs). Fixed: is_timeout() for WouldBlock; TLS handshake without / with unrecognised timeout (cb4b6d1). The TLS handshake itself is not in the model (oracle on the real run).",
         technique="Lean 4 proof on a deadline/wait-count model + timed model-vs-code correspondence over loopback"),
     "C18": dict(
         category="proof",
@@ -261,7 +264,8 @@ CHECKS = {
     "C07": dict(
         category="proof",
         text="Lean theorems on the pool transition system (Model/PoolLts.lean: sync and tokio pools over their critical sections, any number of "
-             "senders, any peer behaviour, any order of events): commits_equal_successes (for every schedule the messages committed at the "
+             "senders, any peer behaviour, any order of events): each_message_exactly_once (for every sender i and message index m the commits recorded for (i, m) over all connections are one if the m-th "
+             "send of i reported success and none otherwise), transaction_is_whole, failed_transaction_closes, commits_equal_successes (for every schedule the messages committed at the "
              "peer are as many as the sends that reported success), transaction_commits_iff_ok, ids_valid (no transition invents or loses a "
              "connection), one_place_at_a_time (exclusivity: a connection is parked, or checked out by exactly one sender, or closed - never "
              "two of these - in every reachable state). The tie to the code is the replay of every forced schedule: replaying the order the real pool actually took "
@@ -273,7 +277,8 @@ CHECKS = {
         technique="Lean 4 proof (invariants of the pool transition system for all event sequences) + refinement check: forced schedules on the real pools replayed through the model"),
     "C08": dict(
         category="proof",
-        text="Lean theorems on Model/PoolLts.lean for every schedule and peer behaviour: idle_within_max (the idle set never exceeds max_size, "
+        text="Lean theorems on Model/PoolLts.lean for every schedule and peer behaviour: reachable_connections_are_healthy (run-level invariant: whatever is "
+             "parked, held by a sender between send and return, or carried by a recycle task is neither broken nor closed), idle_within_max (the idle set never exceeds max_size, "
              "maintenance worker included), dead_connection_not_reused (a popped connection whose peer is gone is closed, nothing is sent on "
              "it, the sender retries), live_connection_probed_first (NOOP before the transaction on a reused connection), "
              "failed_probe_closes (a probe answered with an error or too late closes the connection), failed_connection_closed. Idle-timeout expiry and the top-up to min_idle are in the model and tied to the code by runs with "
@@ -285,7 +290,7 @@ CHECKS = {
     "C09": dict(
         category="proof",
         text="Lean theorems on Model/PoolLts.lean: shutdown_final (once shut down, no event sequence brings the idle set back), shutdown_shuts, "
-             "shutdown_closes_parked, abort_sends_quit, send_after_shutdown_fails (shut-down error, no connection opened or touched), "
+             "shutdown_closes_parked, shutdown_quits_every_live_parked, closed_stays_closed / parked_at_shutdown_closed_for_ever (no transition re-opens a closed connection), abort_sends_quit, send_after_shutdown_fails (shut-down error, no connection opened or touched), "
              "return_after_shutdown_closes (a connection in use at that moment is closed, not parked, when it comes back). Partial: that "
              "shutdown returns promptly, and that after the last handle is dropped the worker thread has exited and every socket is closed, "
              "are runtime facts checked on every forced schedule (schedule runs to completion, thread census via /proc, socket census at the "
